@@ -27,7 +27,7 @@ func init() {
 					"A violation of the real run is attributed to known finding F1 iff it disappears in the counterfactual run and every parent index the hook saw was i/2 or (i-1)/2; any violation in a counterfactual run is a VIOLATION. " +
 					"heapq.Sort: every input of length <= 7 over 4 values (exhaustive) and random inputs up to 2000. " +
 					"distinct = hash of the op list; non-trivial = the queue reached >= 16 elements or an interior Remove(i) occurred",
-				Required:     []string{"histories", "histories_size_ge16", "interior_removes", "pushup_even_index_calls", "reorders", "sort_inputs", "drains", "large_queue_histories"},
+				Required:     []string{"histories", "histories_size_ge16", "interior_removes", "pushup_even_index_calls", "reorders", "sort_inputs", "drains", "large_queue_histories", "big_element_histories"},
 				Exhaustive:   false,
 				Assumptions:  []string{"reference: map of held {Key,Tag} elements; minimality is checked against all held elements under the comparison currently installed", "known finding F1 is excused only through the counterfactual switch in heapq/verif_on.go"},
 				CoverPkgs:    []string{"github.com/creachadair/mds/heapq"},
@@ -159,6 +159,26 @@ func runC05(c *fw.Ctx) {
 		c.Seen(heapHash(ops))
 	}
 	idx += nl
+	// elements larger than 128 bytes, update callback installed
+	for k := 0; k < c.Pick(40, 600); k++ {
+		if !c.Begin(idx + k) {
+			continue
+		}
+		ok, pv, stack := fw.Try(func() {
+			// order is checked with the F1 counterfactual switch on (real-mode order
+			// violations are attributed by the main workload; nothing is excused here)
+			heapq.VerifFixParent.Store(true)
+			defer heapq.VerifFixParent.Store(false)
+			if pr := heapBigRun(c.Rng(), true, c.Step); pr != "" {
+				c.Fail(map[string]any{"element_type": "216-byte struct", "update_callback": true, "mode": "counterfactual (F1 parent index corrected)"}, "%s", pr)
+			}
+		})
+		if !ok {
+			c.FailKind("panic", map[string]any{"element_type": "216-byte struct"}, "panic: %v\n%s", pv, stack)
+		}
+		c.Add("big_element_histories", 1)
+	}
+	idx += 600
 
 	// heapq.Sort: exhaustive small inputs (partitioned over blocks), random large.
 	code := 0
